@@ -30,14 +30,16 @@ impl RequestHandler<PrepareRenameRequest> for PrepareRenameRequestHandler {
             let file_path = &params.text_document.uri.to_file_path().unwrap();
 
             let source_line = params.position.line as usize;
-            let source_column = params.position.character as usize;
 
             if let Some(source_file) = codegen.tree().files.get(file_path) {
                 // The position may lie beyond the end of the document, beyond the end of its line or inside a character
                 if source_line >= source_file.file.num_lines() {
                     return Ok(None);
                 }
-                // (columns are counted in characters, like everywhere else in the server, not in bytes)
+                // (columns are counted in characters, like everywhere else in the server, not in bytes; the protocol counts
+                // them in UTF-16 code units)
+                let source_column =
+                    crate::lsp::to_char_column(Some(&source_file.file), &params.position);
                 let line: Vec<char> = source_file.file.source_line(source_line).chars().collect();
                 let source_column = source_column.min(line.len());
                 let is_id = |c: &char| c.is_alphanumeric() || *c == '_';
@@ -76,15 +78,18 @@ impl RequestHandler<PrepareRenameRequest> for PrepareRenameRequestHandler {
                     .is_empty()
                 {
                     // We're referring to an existing symbol here!
+                    let position = |column: usize| {
+                        crate::lsp::to_position(
+                            &source_file.file,
+                            &LineCol {
+                                line: source_line,
+                                column,
+                            },
+                        )
+                    };
                     let range = lsp_types::Range {
-                        start: lsp_types::Position {
-                            line: source_line as u32,
-                            character: start as u32,
-                        },
-                        end: lsp_types::Position {
-                            line: source_line as u32,
-                            character: end as u32,
-                        },
+                        start: position(start),
+                        end: position(end),
                     };
                     return Ok(Some(PrepareRenameResponse::Range(range)));
                 }
@@ -120,7 +125,11 @@ impl RequestHandler<Rename> for RenameHandler {
                 .uri
                 .to_file_path()
                 .unwrap();
-            let pos = crate::lsp::to_line_col(&params.text_document_position.position);
+            let pos = crate::lsp::to_line_col(
+                tree,
+                &path,
+                &params.text_document_position.position,
+            );
             *defs
                 .iter()
                 .find(|(_, def)| def.try_get_usage_containing(tree, &path, pos).is_some())
